@@ -44,7 +44,7 @@ Trace == ndJsonDeserialize("trace.ndjson")
 ASSUME TLCSet(1, 0)
 
 VARIABLES l,         \* next line
-          mode,      \* "batch" | "eager"
+          mode,      \* "batch" | "eager" | "eager-int" (eager with static interrupt marks: the interrupt path calls waitAll())
           bad,       \* names of the nodes whose task must carry an error (failing or panicking body)
           pan,       \* names of the nodes whose body panics
           sub, body, fin,   \* submitted tasks: not yet begun / inside the body / body ended, not yet pushed
@@ -133,13 +133,14 @@ RefillEv == /\ IsEvent("tm.refill") /\ phase = "run" /\ E.tm = 1
             /\ UNCHANGED <<mode, bad, pan, sub, body, fin, lst, ch, num, inCS, waiting, all, syncT, phase>>
 \* the public call returned (res = "hang": the watchdog fired -- never accepted)
 End == /\ IsEvent("end") /\ phase = "run"
-       /\ E.res \in {"ok", "err"}
+       /\ E.res \in {"ok", "err", "interrupt"}
        /\ ~waiting /\ held = None
        /\ (mode = "batch" => Quiet /\ collected = all)
+       /\ (E.res = "interrupt" => Quiet /\ collected = all)               \* every started task is collected before the run returns an interrupt
        /\ phase' = "idle"
        /\ UNCHANGED <<mode, bad, pan, sub, body, fin, lst, ch, num, inCS, cLocked, waiting, held, collected, all, syncT, ncoll>>
 \* eager mode: executions orphaned by an early return may still end and be pushed after the run returned
-Late == /\ phase = "idle" /\ l <= Len(Trace) /\ Trace[l].ev \in {"nb", "ne", "tm.push", "tm.pushdone"} /\ mode = "eager"
+Late == /\ phase = "idle" /\ l <= Len(Trace) /\ Trace[l].ev \in {"nb", "ne", "tm.push", "tm.pushdone"} /\ mode # "batch"
         /\ l' = l + 1
         /\ UNCHANGED <<mode, bad, pan, sub, body, fin, lst, ch, num, inCS, cLocked, waiting, held, collected, all, syncT, ncoll, phase>>
 
